@@ -275,7 +275,7 @@ func checkRows(p *Prog, r *Report, tv *types.Var, rows []row) {
 func checkCtor(p *Prog, r *Report, ctor *ssa.Function, tg *ssa.Global) *types.Named {
 	name := FuncName(ctor)
 	pos := p.Pos(ctor.Pos())
-	fp := Paths(ctor)
+	fp := PathsInl(ctor)
 	if len(ctor.Params) != 1 {
 		r.Undecided("C04.R2", name, pos, "constructor takes the range size", "unexpected signature")
 		return nil
@@ -326,10 +326,10 @@ func checkCtor(p *Prog, r *Report, ctor *ssa.Function, tg *ssa.Global) *types.Na
 	// R2b: selection of the first row with P > n: sort.Search(len(table), func(i){ table[i].P > n }),
 	// or the linear idiom `idx := 0; for idx < len(table) && table[idx].P <= n { idx++ }`
 	var search *ssa.Call
-	for _, b := range ctor.Blocks {
-		for _, in := range b.Instrs {
-			if c, ok := in.(*ssa.Call); ok && calleeFull(&c.Call) == "sort.Search" {
-				search = c
+	for _, s := range fp.Segs {
+		for _, e := range s.Events {
+			if e.Kind == EvCall && calleeFull(e.Call) == "sort.Search" {
+				search = e.Instr.(*ssa.Call)
 			}
 		}
 	}
@@ -470,12 +470,12 @@ func checkCtor(p *Prog, r *Report, ctor *ssa.Function, tg *ssa.Global) *types.Na
 				}
 				found := false
 				for _, f := range s.Facts {
-					if bo, ok := f.Cond.(*ssa.BinOp); ok && (bo.Op == token.EQL || bo.Op == token.GEQ) && !f.Truth {
+					if bo, ok := s.Resolve(f.Cond).(*ssa.BinOp); ok && (bo.Op == token.EQL || bo.Op == token.GEQ) && !f.Truth {
 						if s.Resolve(bo.X) == selIdx && isLenOf(bo.Y, tg) {
 							found = true
 						}
 					}
-					if bo, ok := f.Cond.(*ssa.BinOp); ok && (bo.Op == token.LSS || bo.Op == token.NEQ) && f.Truth {
+					if bo, ok := s.Resolve(f.Cond).(*ssa.BinOp); ok && (bo.Op == token.LSS || bo.Op == token.NEQ) && f.Truth {
 						if s.Resolve(bo.X) == selIdx && isLenOf(bo.Y, tg) {
 							found = true
 						}
@@ -557,7 +557,7 @@ func isNFree(v ssa.Value, n *ssa.Parameter) bool {
 				for _, ref := range *a.Referrers() {
 					if st, ok := ref.(*ssa.Store); ok && st.Addr == a {
 						n0++
-						if st.Val != ssa.Value(n) {
+						if st.Val != ssa.Value(n) && !paramAlwaysReceives(st.Val, n) {
 							good = false
 						}
 					}
@@ -567,9 +567,31 @@ func isNFree(v ssa.Value, n *ssa.Parameter) bool {
 		}
 	}
 	if fv, ok := v.(*ssa.FreeVar); ok {
-		return BindingOf(fv) == ssa.Value(n)
+		return BindingOf(fv) == ssa.Value(n) || paramAlwaysReceives(BindingOf(fv), n)
 	}
 	return false
+}
+
+// paramAlwaysReceives: v is a parameter of a helper function whose every call in n's function
+// passes n at that position (the helper sees the same number).
+func paramAlwaysReceives(v ssa.Value, n *ssa.Parameter) bool {
+	q, ok := v.(*ssa.Parameter)
+	if !ok || q.Parent() == n.Parent() {
+		return false
+	}
+	idx := paramIndex(q.Parent(), q)
+	sites := 0
+	for _, b := range n.Parent().Blocks {
+		for _, in := range b.Instrs {
+			if c, ok := in.(*ssa.Call); ok && c.Call.StaticCallee() == q.Parent() {
+				sites++
+				if idx < 0 || idx >= len(c.Call.Args) || c.Call.Args[idx] != ssa.Value(n) {
+					return false
+				}
+			}
+		}
+	}
+	return sites > 0
 }
 
 // isRowFieldOfIndex: v == table[idx].<field>
@@ -893,8 +915,15 @@ func checkNext(p *Prog, r *Report, iterT *types.Named) {
 	}
 	L := heads[0]
 	recv := next.Params[0]
-	fieldOf := func(s *Seg, v ssa.Value) string {
+	var fieldOf func(s *Seg, v ssa.Value) string
+	fieldOf = func(s *Seg, v ssa.Value) string {
 		v = s.Resolve(v)
+		// math/big methods return their receiver: x.Mul(..).Mod(..) operates on x
+		if c, ok := v.(*ssa.Call); ok && strings.HasPrefix(calleeFull(&c.Call), "(*math/big.Int).") && len(c.Call.Args) > 0 {
+			if _, isPtr := c.Type().(*types.Pointer); isPtr {
+				return fieldOf(s, c.Call.Args[0])
+			}
+		}
 		if u, ok := v.(*ssa.UnOp); ok && u.Op == token.MUL {
 			if fa, ok := u.X.(*ssa.FieldAddr); ok && fa.X == ssa.Value(recv) {
 				return fieldName(fa.X.Type(), fa.Field)
